@@ -59,7 +59,7 @@ Proof. repeat split; reflexivity. Qed.
 
 (* the built-in signatures and the environment's constants in the model are the ones REGENERATED from
    environment.py and function_extensions/*.py on this run *)
-From JP Require Import Proofs.GenTies Gen.Env.
+From JP Require Import Proofs.TieEnv Gen.Env.
 Theorem C05_signatures_regenerated : g_builtin_registry = builtin_registry /\ g_max_int_index = 2 ^ 53 - 1 /\ g_min_int_index = - (2 ^ 53) + 1.
 Proof. repeat split; reflexivity. Qed.
 Print Assumptions C05_signatures_regenerated.
